@@ -35,7 +35,7 @@ STYLES = ("rest", "google", "numpydoc")
 
 def probes():
     return ["partial_doc_with_2plus_undocumented", "permuted_doc", "import_inference_cmd", "gen_prepend_cmd", "exmod_cmd",
-            "gen_infer_mixed_kinds", "ambiguous_symbol_any", "openapi_emit_ops", "gen_phase1_multi_fk", "docstring_with_footer",
+            "gen_infer_mixed_kinds", "gen_directory_cmd", "exmod_two_subpackages", "ambiguous_symbol_any", "openapi_emit_ops", "gen_phase1_multi_fk", "docstring_with_footer",
             "sync_cmd", "doctrans_cmd", "openapi_cmd", "repeated_occurrences", "ops_ok_somewhere"]
 
 
@@ -213,6 +213,17 @@ def command_ops(rng, pr):
         "src/%s/sub/beta.py" % pkgname: "from typing import Any, List, Optional, Union\n\n\n" + gen.render_function(s2) +
                                         "\n__all__ = [\"beta_fn\"]\n",
     }
+    if rng.random() < 0.7:
+        # a second sub-package and a sibling module: more than one entry per directory, so that the order in which the
+        # file system lists them (directory-order seam) can matter
+        s3 = _spec(rng, "Gamma", 1, 3)
+        files["src/%s/extra/__init__.py" % pkgname] = "from %s.extra.gamma import Gamma\n\n__all__ = [\"Gamma\"]\n" % pkgname
+        files["src/%s/extra/gamma.py" % pkgname] = ("from typing import Any, List, Optional, Union\n\n\n" +
+                                                    gen.render_class(s3) + "\n__all__ = [\"Gamma\"]\n")
+        files["src/%s/__init__.py" % pkgname] = (
+            "from %s.alpha import Alpha\nfrom %s.extra.gamma import Gamma\nfrom %s.sub.beta import beta_fn\n\n"
+            "__all__ = [\"Alpha\", \"Gamma\", \"beta_fn\"]\n" % (pkgname, pkgname, pkgname))
+        bump("exmod_two_subpackages")
     for emit_ in rng.sample(("class", "function", "argparse", "sqlalchemy_table", "sqlalchemy_hybrid"), 2):
         out.append({"kind": "cmd", "files": files, "sys_path": "src", "pkg": pkgname,
                     "argv": ["exmod", "-m", pkgname, "--emit", emit_, "-o", "{ROOT}/out", "-r"]})
@@ -265,6 +276,14 @@ def command_ops(rng, pr):
               "{ROOT}/models/Node.py"]
     out.append({"kind": "cmd", "files": files_p, "argv": ["gen"] + common + ["--phase", "1"]})
     bump("gen_phase1_multi_fk")
+    # gen over a DIRECTORY of modules: the order in which the file system happens to list it is not part of the input
+    dspecs = [_spec(rng, n, 1, 3) for n in rng.sample(gen.CLASS_NAMES, rng.randint(2, 4))]
+    out.append({"kind": "cmd",
+                "files": {"models/%s.py" % s_["name"].lower(): "from typing import Optional\n\n\n" + gen.render_class(s_)
+                          for s_ in dspecs},
+                "argv": ["gen", "--name-tpl", "{name}Gen", "--input-mapping", "{ROOT}/models", "--parse", "class", "--emit",
+                         rng.choice(("argparse", "sqlalchemy", "class")), "-o", "{ROOT}/gen_out.py"]})
+    bump("gen_directory_cmd")
     return out
 
 
@@ -281,8 +300,8 @@ def build_histories(rng, T, K):
 
 
 # ------------------------------------------------------------------------------------ execution
-def run_child(ops_seq, hashseed, verbose=None, timeout=1500):
-    plan = {"ops": ops_seq, "verbose": verbose}
+def run_child(ops_seq, hashseed, verbose=None, timeout=1500, dirorder=0):
+    plan = {"ops": ops_seq, "verbose": verbose, "dirorder": dirorder}
     p = subprocess.run([PYTHON, VERIF + "/cddsim/c10_child.py"], input=json.dumps(plan), stdout=subprocess.PIPE,
                        stderr=subprocess.PIPE, text=True, timeout=timeout, env=proc.child_env(hashseed), cwd="/")
     lines = [ln for ln in p.stdout.splitlines() if ln.startswith("{")]
@@ -293,9 +312,10 @@ def run_child(ops_seq, hashseed, verbose=None, timeout=1500):
 
 def work(task):
     """One worker = one interpreter (history + hash seed)."""
-    res = run_child(task["history"], task["hashseed"])
+    res = run_child(task["history"], task["hashseed"], dirorder=task.get("dirorder", 0))
     return {"stats": {"runs": 1, "commands": len(task["history"]), "evaluations": len(task["history"]),
-                      "seeds": [task["seed"]]},
+                      "seeds": [task["seed"]],
+                      "faults_fired": {"directory_order_permuted@listdir/scandir": res.get("dir_calls_permuted", 0)}},
             "violations": [], "samples": [], "digests": [], "nontrivial": [],
             "child": {"hashseed": task["hashseed"], "results": res["results"], "k": task["k"]}}
 
@@ -310,8 +330,9 @@ def plan(tier, seed, scale=1.0):
         K = 32
     hists = build_histories(rng, T, K)
     seeds = list(range(K - 1)) + ["random"]
-    return [{"seed": seed, "k": k, "hashseed": seeds[k], "history": hists[k], "_T": len(T), "_probes": pr}
-            for k in range(K)]
+    # directory-enumeration order per interpreter: 0 = the file system's own, 1 = sorted, 2 = reversed, >= 3 = seeded
+    return [{"seed": seed, "k": k, "hashseed": seeds[k], "dirorder": (0, 1, 2, 3 + k)[k % 4], "history": hists[k],
+             "_T": len(T), "_probes": pr} for k in range(K)]
 
 
 def analyse(tasks, results):
@@ -393,8 +414,10 @@ def minimise(oid, op, occ, tasks_by_k):
         return tasks_by_k[k]["history"][:pos]
 
     sa, sb = tasks_by_k[ka]["hashseed"], tasks_by_k[kb]["hashseed"]
-    a = {"hashseed": sa if sa != "random" else 12345, "before": prefix(ka, first[1])}
-    b = {"hashseed": sb if sb != "random" else 54321, "before": prefix(kb, other[1])}
+    a = {"hashseed": sa if sa != "random" else 12345, "before": prefix(ka, first[1]),
+         "dirorder": tasks_by_k[ka].get("dirorder", 0)}
+    b = {"hashseed": sb if sb != "random" else 54321, "before": prefix(kb, other[1]),
+         "dirorder": tasks_by_k[kb].get("dirorder", 0)}
     budget = [MIN_BUDGET if _minimised[0] < MAX_MINIMISED else 0]
     _minimised[0] += 1
 
@@ -402,13 +425,21 @@ def minimise(oid, op, occ, tasks_by_k):
         if budget[0] <= 0:
             return False
         budget[0] -= 1
-        da = run_child(a_["before"] + [item], a_["hashseed"])["results"][-1]["digest"]
-        db = run_child(b_["before"] + [item], b_["hashseed"])["results"][-1]["digest"]
+        da = run_child(a_["before"] + [item], a_["hashseed"], dirorder=a_.get("dirorder", 0))["results"][-1]["digest"]
+        db = run_child(b_["before"] + [item], b_["hashseed"], dirorder=b_.get("dirorder", 0))["results"][-1]["digest"]
         return da != db
 
     cls = "unclassified"
     if budget[0] > 0:
-        if a["hashseed"] != b["hashseed"] and differs(dict(a, before=[]), dict(b, before=[])):
+        if differs(dict(a, before=[], hashseed=0, dirorder=1), dict(b, before=[], hashseed=0, dirorder=2)) and \
+                not differs(dict(a, before=[], hashseed=0, dirorder=1), dict(b, before=[], hashseed=1, dirorder=1)):
+            # same hash seed, no history, only the order in which the file system lists a directory differs
+            a, b, cls = dict(a, before=[], hashseed=0, dirorder=1), dict(b, before=[], hashseed=0, dirorder=2), \
+                "directory_order"
+        elif a["hashseed"] != b["hashseed"] and differs(dict(a, before=[], dirorder=1), dict(b, before=[], dirorder=1)):
+            a, b, cls = dict(a, before=[], dirorder=1), dict(b, before=[], dirorder=1), "hash_seed"
+            # (kept below: the original order of the remaining classifications)
+        elif a["hashseed"] != b["hashseed"] and differs(dict(a, before=[]), dict(b, before=[])):
             a, b, cls = dict(a, before=[]), dict(b, before=[]), "hash_seed"
         elif differs(dict(a, hashseed=0), dict(b, hashseed=0)):
             a, b, cls = dict(a, hashseed=0), dict(b, hashseed=0), "call_history"
@@ -437,6 +468,8 @@ def minimise(oid, op, occ, tasks_by_k):
              "%d calls [%s dependence]%s" % (oid, _describe(op), a["hashseed"], len(a["before"]), b["hashseed"],
                                              len(b["before"]), cls, " (same interpreter, different occurrence)"
                                              if same_interp else "")
+    if a.get("dirorder", 0) != b.get("dirorder", 0):
+        detail += " (directory listing order: policy %s vs policy %s)" % (a.get("dirorder", 0), b.get("dirorder", 0))
     return {"clause": "K1", "detail": detail, "sig": {"what": cls, "op_kind": _kind(op)},
             "trace": {"kind": "c10-diff", "op": item, "a": a, "b": b}}
 
@@ -457,8 +490,10 @@ def _describe(op):
 
 def replay(trace):
     item = trace["op"]
-    va = run_child(trace["a"]["before"] + [item], trace["a"]["hashseed"], verbose=[item["id"]])["results"][-1]
-    vb = run_child(trace["b"]["before"] + [item], trace["b"]["hashseed"], verbose=[item["id"]])["results"][-1]
+    va = run_child(trace["a"]["before"] + [item], trace["a"]["hashseed"], verbose=[item["id"]],
+                   dirorder=trace["a"].get("dirorder", 0))["results"][-1]
+    vb = run_child(trace["b"]["before"] + [item], trace["b"]["hashseed"], verbose=[item["id"]],
+                   dirorder=trace["b"].get("dirorder", 0))["results"][-1]
     if trace.get("raw") and va["digest"] == vb["digest"] and va.get("raw") != vb.get("raw"):
         return [{"clause": "K1", "detail": "outputs differ only in an embedded memory address: %s" % json.dumps(
             va.get("outcome"))[:500], "sig": (trace.get("violation") or {}).get("sig") or {"what": "memory_address_in_output"}}]
